@@ -26,11 +26,12 @@ def escalate(chk, mod):
         return
     drift = core.source_drift(chk.prop)
     chk.extra["source_drift"] = drift
-    if not drift:
+    force = int(os.environ.get("VERIF_ESCALATE_FORCE", "0") or 0)   # development: that many extra rounds, drift or not
+    if not drift and not force:
         return
     budget = float(os.environ.get("VERIF_ESCALATE_BUDGET", "280"))
     rounds, last = 0, time.time() - chk.t0
-    while not chk.failures and (time.time() - chk.t0) + 1.15 * last < budget:
+    while not chk.failures and (rounds < force if force else (time.time() - chk.t0) + 1.15 * last < budget):
         rounds += 1
         t = time.time()
         if chk.lean is not None:
